@@ -786,7 +786,10 @@ impl Domain for ClusterDomain {
                 });
                 match r {
                     None => "timeout".into(),
-                    Some(Err(_)) => "err".into(),
+                    Some(Err(e)) => {
+                        if std::env::var("DCH_VERBOSE").is_ok() { eprintln!("fetchstate: {:?}", e); }
+                        "err".into()
+                    },
                     Some(Ok((_, set))) => {
                         let probes = (1..=4u64)
                             .map(|nd| {
